@@ -87,6 +87,42 @@ def check_stencils(prog, res, fn, rule='A5', containers=('weights_layers',
                    require_step=None):
   n = 0
   for loop in ast.walk(fn.node):
+    # for i, j in zip(range(a), range(b)): the variables index two different
+    # axes of a vertex container -> only the diagonal of the a x b grid is
+    # visited (the grid needs nested loops / itertools.product)
+    if isinstance(loop, ast.For) and isinstance(loop.iter, ast.Call) and \
+        dotted(loop.iter.func) == 'zip' and isinstance(
+            loop.target, ast.Tuple) and all(
+                isinstance(a, ast.Call) and dotted(a.func) == 'range'
+                for a in loop.iter.args) and len(loop.iter.args) > 1:
+      vars_ = [t.id for t in loop.target.elts if isinstance(t, ast.Name)]
+      axes_of = {}
+      for sub in ast.walk(loop):
+        if not isinstance(sub, ast.Subscript):
+          continue
+        chain = []
+        cur = sub
+        while isinstance(cur, ast.Subscript):
+          chain.append(cur.slice)
+          cur = cur.value
+        if dotted(cur) not in containers:
+          continue
+        chain.reverse()
+        for pos, e in enumerate(chain):
+          for v in vars_:
+            if _affine_in(e, v) is not None:
+              axes_of.setdefault(v, set()).add(pos)
+      used = [v for v in vars_ if axes_of.get(v)]
+      if len(used) > 1 and len({min(axes_of[v]) for v in used}) > 1:
+        n += 1
+        res.violation(rule, '%s|for %s in %s|grid' % (
+            fn.qualname, ','.join(vars_), norm_text(loop.iter)[:40]),
+                      fn.loc(loop),
+                      'the indices %s are paired by zip() but index different '
+                      'axes of the vertex container: only the diagonal of the '
+                      'grid is visited, every other pair of rows is never '
+                      'checked' % used)
+      continue
     if not (isinstance(loop, ast.For) and isinstance(loop.iter, ast.Call)
             and dotted(loop.iter.func) == 'range'
             and isinstance(loop.target, ast.Name)):
